@@ -27,7 +27,16 @@ def gen(rnd, k):
         dl = [s for s in S["stocks"] if s["delisted"] is not None]
         others = [s for s in S["stocks"] if s["delisted"] is None]
         if dl and others:
-            S["trf"][dl[0]["id"]] = {"successor": others[0]["id"], "share_conversion_ratio": rnd.choice([0.5, 1.0, 2.0, 0.3276])}
+            ratio = rnd.choice([0.5, 1.0, 2.0, 0.3276])
+            S["trf"][dl[0]["id"]] = {"successor": others[0]["id"], "share_conversion_ratio": ratio}
+            # the data of a real conversion are consistent: on the predecessor's last day its close is the successor's close x ratio (the code re-marks the successor's WHOLE
+            # position at predecessor's last price / ratio; with unrelated prices everything that reads that mark before the next bar — a reinvestment the next morning — is off)
+            di = S["cal"].index(dl[0]["delisted"]) - 1
+            sb = others[0]["bars"].get(di)
+            if sb is not None and di in dl[0]["bars"]:
+                c = round(sb[2] * ratio, 2)
+                b0 = dl[0]["bars"][di]
+                dl[0]["bars"][di] = (b0[0], c, c, c, c, b0[5], c * b0[5], round(c * 1.1, 2), round(c * 0.9, 2))
     if k % 6 == 5:
         S["_old_div_layout"] = True        # dividend tables without the book_closure_date column
     cfgk = trading.gen_config(rnd, S, {"p_reinvest": 0.7, "p_init_pos": 0.2, "pf_roundtrip": k % 3 == 2})
